@@ -221,6 +221,37 @@ pub fn corrupt_addr_text(t: &mut Tape, valid: &str) -> Vec<u8> {
     s
 }
 
+/// A keyword (`PROXY`, `TCP4`, `TCP6`, `UNKNOWN`) after one small edit - a character inserted, replaced, dropped, doubled or
+/// changed in case - that is never one of the valid keywords again.
+pub fn corrupt_word(t: &mut Tape, word: &str) -> Vec<u8> {
+    for _ in 0..8 {
+        let mut s = word.as_bytes().to_vec();
+        let n = s.len();
+        let extra = *t.pick(&[b'0', b'+', b'-', b'4', b'6', b'x', b'.', b'_', b'1', b'P', b'T', b'N']);
+        match t.below(5) {
+            0 => s.insert(t.below(n as u32 + 1) as usize, extra),
+            1 => s[t.below(n as u32) as usize] = extra,
+            2 => {
+                s.remove(t.below(n as u32) as usize);
+            }
+            3 => {
+                let k = t.below(n as u32) as usize;
+                s.insert(k, s[k]);
+            }
+            _ => {
+                let k = t.below(n as u32) as usize;
+                s[k] = if s[k].is_ascii_uppercase() { s[k].to_ascii_lowercase() } else { s[k].to_ascii_uppercase() };
+            }
+        }
+        if !matches!(&s[..], b"PROXY" | b"TCP4" | b"TCP6" | b"UNKNOWN") && !s.is_empty() {
+            return s;
+        }
+    }
+    let mut s = word.as_bytes().to_vec();
+    s.push(b'x');
+    s
+}
+
 /// A corruption derived from a valid port text: a non-digit in it, or more digits than 65535 allows.
 pub fn corrupt_port_text(t: &mut Tape, valid: &str) -> Vec<u8> {
     let mut s = valid.as_bytes().to_vec();
@@ -603,7 +634,7 @@ pub fn gen_v1_mutant(t: &mut Tape) -> (Vec<u8>, &'static str) {
     let mut p = gen_valid_parts(t, false);
     let tcp = p.proto != b"UNKNOWN";
     let v6 = p.proto == b"TCP6";
-    let kind = t.below(30);
+    let kind = t.below(34);
     let label: &'static str;
     match kind {
         0 => {
@@ -644,14 +675,23 @@ pub fn gen_v1_mutant(t: &mut Tape) -> (Vec<u8>, &'static str) {
         }
         2 => {
             label = "keyword";
-            p.keyword = t.pick(&["proxy", "Proxy", "PROX", "PROXYY", "", "PROXY\0", "XPROXY", "PROXI", "PR0XY", "PROXYPROXY"]).as_bytes().to_vec();
+            p.keyword = if t.chance(1, 3) {
+                corrupt_word(t, "PROXY")
+            } else {
+                t.pick(&["proxy", "Proxy", "PROX", "PROXYY", "", "PROXY\0", "XPROXY", "PROXI", "PR0XY", "PROXYPROXY", "\u{feff}PROXY", "\r\nPROXY", "\nPROXY", " PROXY", "\0PROXY", "\u{200b}PROXY"]).as_bytes().to_vec()
+            };
         }
         3 => {
             label = "protocol";
-            p.proto = t
-                .pick(&["tcp4", "TCP", "TCP5", "TCP44", "TCP4x", "unknown", "UNKNOW", "UNKNOWNN", "", "TCP6\0", "UDP4", "TCP 4", "T", "U", "Tcp6"])
-                .as_bytes()
-                .to_vec();
+            p.proto = if t.chance(1, 2) {
+                let w = String::from_utf8(p.proto.clone()).unwrap_or_default();
+                corrupt_word(t, &w)
+            } else if t.chance(1, 3) {
+                // another family's keyword, or a datagram one, in front of this line's fields
+                t.pick(&["UDP4", "UDP6", "TCP4", "TCP6", "UNKNOWN", "SCTP4", "UNIX"]).as_bytes().to_vec()
+            } else {
+                t.pick(&["tcp4", "TCP", "TCP5", "TCP44", "TCP4x", "unknown", "UNKNOW", "UNKNOWNN", "", "TCP6\0", "UDP4", "TCP 4", "T", "U", "Tcp6"]).as_bytes().to_vec()
+            };
         }
         4 | 5 if tcp => {
             label = "port";
@@ -839,6 +879,59 @@ pub fn gen_v1_mutant(t: &mut Tape) -> (Vec<u8>, &'static str) {
                 if t.chance(1, 3) {
                     line.extend_from_slice("tail \u{e9}\r\n".as_bytes());
                 }
+            }
+            return (line, label);
+        }
+        30 | 31 => {
+            // a character that text tools tend to ignore or strip (byte order mark, zero-width space, no-break space, line /
+            // paragraph separators, soft hyphen) at the start, behind a separator, before the CR or at the very end; or stray
+            // bytes in front of an otherwise valid line (an empty line, blanks, a NUL, the start of the v2 signature)
+            label = if kind == 30 { "ignorable-unicode" } else { "stray-prefix" };
+            let mut line = p.render();
+            if kind == 30 {
+                let ch = *t.pick(&["\u{feff}", "\u{200b}", "\u{a0}", "\u{2028}", "\u{85}", "\u{3000}", "\u{ad}", "\u{2060}"]);
+                let spaces: Vec<usize> = line.iter().enumerate().filter(|(_, &b)| b == b' ').map(|(i, _)| i + 1).collect();
+                let cr = line.iter().position(|&b| b == b'\r').unwrap_or(line.len());
+                let at = match t.below(4) {
+                    0 => 0,
+                    1 if !spaces.is_empty() => spaces[t.below(spaces.len() as u32) as usize],
+                    2 => cr,
+                    _ => line.len(),
+                };
+                let tail = line.split_off(at);
+                line.extend_from_slice(ch.as_bytes());
+                line.extend(tail);
+            } else {
+                let pre: &[u8] = *t.pick(&[&b"\r\n"[..], b"\n", b" ", b"\0", b"\r\n\r\n", b"\r", b"\t", b"\xef\xbb\xbf", b"\r\n\r\n\0\r\nQUIT\n"]);
+                let mut out = pre.to_vec();
+                out.extend(line);
+                line = out;
+            }
+            return (line, label);
+        }
+        32 | 33 => {
+            // a line that is well-formed so far whose CR sits right at the length limit (index 103..=107); the input ends with the
+            // CR, with CR LF, or with CR and another byte
+            label = "cr-at-limit";
+            let cr_at = t.usize_in(103, 107);
+            let mut line: Vec<u8> = if t.coin() {
+                let mut l = b"PROXY UNKNOWN ".to_vec();
+                while l.len() < cr_at {
+                    l.push(if t.chance(1, 9) { b' ' } else { b'a' + (l.len() % 26) as u8 });
+                }
+                l
+            } else {
+                let l = gen_tcp6_line_of_len(t, (cr_at + 2).min(116));
+                l[..l.len() - 2].to_vec()
+            };
+            match t.below(4) {
+                0 => line.push(b'\r'),
+                1 => line.extend_from_slice(b"\r\n"),
+                2 => {
+                    line.push(b'\r');
+                    line.push(t.byte());
+                }
+                _ => {}
             }
             return (line, label);
         }
@@ -1175,10 +1268,13 @@ pub fn gen_v2_mutant(t: &mut Tape) -> (Vec<u8>, &'static str) {
                 let l = ((h[14] as usize) << 8) | h[15] as usize;
                 let fam = (h[13] >> 4) as usize & 3;
                 let need = NEED[fam];
-                let v = match t.below(4) {
+                let v = match t.below(6) {
                     0 | 1 => l.saturating_sub(need),
                     2 => l + 16,
-                    _ => h.len(),
+                    3 => h.len(),
+                    // exactly another family's block size (a dual-stack sender that labels the header with the listening
+                    // socket's family but writes the peer's block)
+                    _ => NEED[t.below(4) as usize],
                 } & 0xffff;
                 h[14] = (v >> 8) as u8;
                 h[15] = v as u8;
